@@ -37,7 +37,7 @@ CLAIMED["C11"] = dict(engine="E1", technique="symbolic execution of the real pol
     note="Floats of symbolic quantities are reals; exact-zero decision LLRs are excluded (recorded assumption: the code maps sign 0 to 0.5); tanh/atanh are uninterpreted functions with sound axioms, so sum-product items are stretch. Bounds: encoder N <= 64 (1024 thorough), SC N <= 8 (16 stretch), BP N <= 4 (8 stretch), iterations <= 2 (3).",
     ref="DESIGN.md §4 C11")
 CLAIMED["C05"] = dict(engine="E1", technique="symbolic execution of the real modulator and hard demodulator on symbolic bit tensors; values that depend on few bits are finite tables with torch-computed leaves; z3 decides 'exists bits: demod(mod(bits)) != bits' over the tables' guard formulas",
-    text="Every bit sequence of L symbols (L = 2/3) in three layouts, for every scheme/order/labelling/normalisation option of the catalogue (also through the registry), in one query per output tensor; memory schemes after reset in eval mode with their documented start-up loss.",
+    text="Every bit sequence of L symbols (L = 2/3) in three layouts, for every scheme/order/labelling/normalisation option of the catalogue (also through the registry), in one query per output tensor; memory schemes after reset in eval mode with their documented start-up loss. In addition long frames of 1030 symbols (fixed pseudo-random pattern with the bits of symbols 256/512/768/1024 symbolic) for 3 (quick) / 12 (thorough) modems, which exercise block boundaries of vectorised code.",
     note="Table leaves are computed by torch itself (exact float32/complex64), so there is no reals-for-floats gap here; the table domain is limited to 16 selector bits per element. Orders up to 16 (quick) / 64 (thorough), QAM-256 stretch.",
     ref="DESIGN.md §4 C05")
 CLAIMED["C14"] = dict(engine="E1+E2", technique="modems: symbolic execution of the real modulator on two symbolic labels (finite tables with torch-computed leaves), z3 decides injectivity / agreement with the published tables / Gray neighbourhood; Gray utilities: AST-level symbolic interpretation of the real source over QF_BV(64), fork per trip count, z3 (cvc5 cross-check on a sample)",
@@ -78,11 +78,11 @@ CLAIMED["C18"] = dict(engine="E2", technique="AST-level bounded symbolic interpr
     ref="DESIGN.md §4 C18, §2.2")
 CLAIMED["C20"] = dict(engine="E1", technique="the real component is executed several times inside one solver context on shared symbolic members (stacked batch, each member alone, swapped order, repeated call, 1-D / (1,2,n) / two-blocks-per-row layouts); z3 decides whether any output coordinate can differ",
     text="For every component of the stated catalogue and ALL values of two symbolic members at once: batch result equals the stack of single results, independent of position and of the other member, repeated calls agree, the input tensor is unchanged, and every alternative layout either agrees with per-block evaluation or is rejected with an exception.",
-    note="Batches of two members; Berlekamp-Massey with a fixed second member; constraints compare per leading index only; PAPR / per-antenna constraints and iterative soft decoders are not in this catalogue (stated). Known finding: ReedMullerDecoder drops all but the first block of nested / multi-block inputs.",
+    note="Batches of two members; Berlekamp-Massey with a fixed second member; constraints compare per leading index only (real, silent and complex members); thorough adds encoder purity for every catalogue code with n <= 16 and syndrome-decoder purity for small codes (about 540 components); PAPR / per-antenna constraints and iterative soft decoders are not in this catalogue (stated). Known finding: ReedMullerDecoder drops all but the first block of nested / multi-block inputs.",
     ref="DESIGN.md §4 C20")
 CLAIMED["C09"] = dict(engine="E1", technique="the real ChannelCodeModel assembled from real encoder / modulator / demodulator / decoder objects is executed on symbolic message bits (finite tables with torch-computed leaves; reals for displacements); channel bit flips are a symbolic pattern with a cardinality constraint re-labelled through the library's own modem; z3 decides 'exists message (and admissible channel action): output != message'",
     text="All messages of one block, for each stated (code, decoder, modem, channel) combination: ideal channel, at most t flipped code bits per block, per-symbol displacement below d_min/2 per axis (BPSK, QPSK), and soft pipelines (Wagner, polar SC, min-sum LDPC) with the demodulator's LLR output at noise variances on a grid.",
-    note="One block per call; hard pipelines on 6 modem options x {syndrome, ML} + BM/syndrome on BPSK; the combination list is a bound. Interface mismatches between individually correct stages (label tables, LLR polarity) are what this check is for (self-test: swapped demodulator labels).",
+    note="One row per call carrying one code block (2..4 blocks for the multi-block links); quick: 60 links; thorough: every code/decoder of the catalogue with every memoryless modem whose symbol size divides n (about 470 links incl. 64-/256-QAM); the combination list is a bound. Interface mismatches between individually correct stages (label tables, LLR polarity) are what this check is for (self-test: swapped demodulator labels).",
     ref="DESIGN.md §4 C09")
 CLAIMED["C19"] = dict(engine="E3+E1", technique="shape clause: torch's own symbolic-shape tracer (FakeTensorMode + ShapeEnv with batch/height/width dynamic) runs the real encoder/decoder modules; the resulting integer size expressions and guards are translated to z3 LIA, which decides the shape contract over all admissible sizes (dynamic sizes are traced under size >= 2, so B = 1 is traced separately; uncovered guard regions are re-traced). Gradient clause: the real channel / constraint runs on symbolic float64 tensors that require grad; torch's autograd engine executes its backward formulas on the symbolic tensors, and z3 (NRA on cone-of-influence slices) decides per Jacobian entry whether autograd's value can differ from the symbolic derivative of the stage's own output, and whether a backward operation can be undefined",
     text="(a) for the bundled Bourtsoulatze2019 and Tung2022 (Q, Q2) encoder/decoder pairs with reduced widths, every batch size 1..8 and every height/width in [16,512] that is a multiple of the total stride: decoder(encoder(x)) has the input's shape and the latent is (B, channels, H/stride, W/stride); the filter-count helper on ground instances. (b) for AWGN / Laplacian / phase-noise / flat-fading / nonlinear channels and total / average / per-antenna / peak / PAPR (no-clipping path) constraints on real and complex tensors of 2..8 samples in 1-D, batch-of-1, batch-of-2 and 3-D layouts, with symbolic noise draws: autograd's Jacobian equals the derivative of the computed function and is finite for every input of the stated domain (|x| <= 20, item power >= 0.05, forward radicands/divisors >= 1e-3, 1% away from clipping levels); (c) DeepJSCCModel(linear encoder with symbolic 2x2 weights -> TotalPower -> AWGN -> linear decoder): autograd dL/dW equals the derivative of the loss for all weights and draws and is not identically zero for any parameter.",
